@@ -68,6 +68,9 @@ custom_exec(compile( "".join([ bits_template.format(nbits) for nbits in _bitwidt
                      filename="bits_import.py", mode="exec"), globals(), locals() )
 
 def mk_bits( nbits ):
+  # A width given as a Bits value misses the table of classes (it hashes
+  # unlike its integer) and would create - and replace - the class again
+  if isinstance( nbits, Bits ): nbits = int( nbits )
   assert nbits > 0, "We don't allow Bits0"
   # assert nbits < 512, "We don't allow bitwidth to exceed 512."
   if nbits not in _bits_types:
